@@ -16,7 +16,7 @@ RULE = ("(1) species: all 118 symbols bare (natural and most-abundant), every ta
         "group | juxtaposition with optional blanks | explicit ' + ' | trailing explicit ' * n'), nesting <= 5 quick / "
         "<= 10 thorough, biased to 'multiplied group directly followed by a group', rendered by the Lean model, both "
         "isotope modes; (3) preprocess scanners vs the real regexes on rendered and mutated / random strings; "
-        "(4) Substance + Substance and Substance * n; (5) histories: a parsed substance grown with add(), later parses of formulas with the same species, + Element of a present / new species, sums, products, add() on a sum — every live object re-read after every step (counts, count column, sum row, composite_mass / component_mass / proportion_norm against the count-weighted sums of its own per-species rows); corpus first. non-trivial = formula with a group and a repeated "
+        "(4) Substance + Substance and Substance * n; (5) reads are pure (a table of selected components and str() before the full table); Element + / * / += / *= keep the per-atom data in both isotope modes; (6) histories: a parsed substance grown with add(), later parses of formulas with the same species, + Element of a present / new species, sums, products, add() on a sum — every live object re-read after every step (counts, count column, sum row, composite_mass / component_mass / proportion_norm against the count-weighted sums of its own per-species rows); corpus first. non-trivial = formula with a group and a repeated "
         "species, or species with isotope/charge; distinct = the rendered text + mode")
 ASSUMPTIONS = [
     "documented notation = species (symbol, optional {A}, {+q}, {A+q}; D, T bare or with a full {A+q}; [p] [n] [e]), integer counts >= 1, "
@@ -108,8 +108,14 @@ def impl_substance(s, natural, tables=True):
     out = {"components": comps}
     if comps and tables:
         try:
+            if len(comps) >= 2:
+                # reads are pure: a table of SELECTED components, str() and the component table first ...
+                part = sub.data_composite(components=[comps[-1][0]], quantity=False)
+                out["partial"] = {"keys": [k for k in part.keys() if k not in ("avg", "sum")],
+                                  "mass": float(part[comps[-1][0]].mass), "sum_mass": float(part['sum'].mass)}
+                str(sub)
             dc = sub.data_components(quantity=False)
-            dd = sub.data_composite(quantity=False)
+            dd = sub.data_composite(quantity=False)          # ... then the full table
             out["rows"] = [{"element": dc[k].element, "mass": float(dc[k].mass), "Z": float(dc[k].Z), "N": float(dc[k].N),
                             "e": float(dc[k].e), "count": float(dc[k]['count']), "isotope": float(dc[k].isotope),
                             "ionisation": int(dc[k].ionisation)} for k, _ in comps]
@@ -319,6 +325,10 @@ def judge_formula(ctx, tbl, ast, natural, r, report=True):
             viol = ("formula:counts:%s" % shape_of(txt), "Substance(%r) has counts %s, the formula expands to %s" % (txt, got, exp))
         else:
             # per-species data against the table, totals = count-weighted sums of the reported per-species data
+            part = imp.get("partial")
+            if part and (part["keys"] != [imp["components"][-1][0]] or not close(part["sum_mass"], part["mass"])):
+                viol = ("formula:selection", "data_composite(components=[%r]) of Substance(%r) lists %s, row mass %r, sum row %r" %
+                        (imp["components"][-1][0], txt, part["keys"], part["mass"], part["sum_mass"]))
             spec = r["spec"]
             if not isinstance(spec, dict):
                 return None, ("formula-spec", "the Lean specification is undefined for %r" % txt, replay)
@@ -567,6 +577,22 @@ def element_ops(ctx, sym, natural, k1, k2):
                       {"stream": "element-ops", "sym": sym, "natural": natural})
         return
     want = [float(k1 + k2), float(3 * k1), float(k1), float(k2), float(k1 + k2), float(3 * k1)]
+    try:
+        for name, r in (("e1 + e2", e1 + e2), ("e1 * 3", e1 * 3), ("e1 += e2", e3), ("e1 *= 3", e4)):
+            for col in ("mass", "Z", "N", "e"):
+                a = getattr(r, col)
+                b = getattr(e1, col)
+                a = float(a.value('Da')) if col == "mass" else float(a)
+                b = float(b.value('Da')) if col == "mass" else float(b)
+                if not close(a, b):
+                    ctx.violation("history:element-data", "%s of Element(%r, natural=%s): per-atom %s is %r, the operand has %r" %
+                                  (name, sym, natural, col, a, b),
+                                  {"stream": "element-ops", "sym": sym, "natural": natural, "k1": k1, "k2": k2})
+                    return
+    except Exception as e:  # noqa
+        ctx.violation("history:element-error", "reading the result of Element arithmetic on %r raises %r" % (sym, e),
+                      {"stream": "element-ops", "sym": sym, "natural": natural})
+        return
     if any(not close(a, b) for a, b in zip(got, want)):
         ctx.violation("history:element-ops", "Element(%r,%r)+Element(%r,%r), *3 and the operands have counts %s, expected %s" %
                       (sym, k1, sym, k2, got, want), {"stream": "element-ops", "sym": sym, "natural": natural, "k1": k1, "k2": k2})
